@@ -14,6 +14,8 @@ import (
 	"go.nanomsg.org/mangos/v3/protocol/sub"
 	"go.nanomsg.org/mangos/v3/vh/vt"
 	_ "go.nanomsg.org/mangos/v3/transport/tcp"
+	"go.nanomsg.org/mangos/v3/vh/c18"
+	"go.nanomsg.org/mangos/v3/vh/kinds"
 	"go.nanomsg.org/mangos/v3/vh/kit"
 	_ "go.nanomsg.org/mangos/v3/vh/vipc"
 	"go.nanomsg.org/mangos/v3/vh/vnet"
@@ -25,6 +27,10 @@ func init() {
 		return []*vexplore.Scenario{
 			{Name: "maxrecvsize-takes-effect", Mode: "enum", Reset: kit.ResetGlobals, Body: maxRecv,
 				NeedCounters: []string{"limit-enforced", "in-limit-delivered", "limit-lifted"}},
+			{Name: "best-effort-beside-a-send-deadline", Mode: "enum", Reset: kit.ResetGlobals, Body: c18.BestEffortModes,
+				NeedCounters: []string{"best-effort-returned-at-once"}},
+			{Name: "socket-options-reach-existing-dialers", Mode: "enum", Reset: kit.ResetGlobals, Body: sockOptsExisting,
+				NeedCounters: []string{"passed-on-to-existing-dialer"}},
 			{Name: "sub-readqlen-stays-in-effect", Mode: "enum", Reset: kit.ResetGlobals, Body: subQLen,
 				NeedCounters: []string{"overflowed-to-exactly-qlen", "reconfigured-with-a-full-queue"}},
 		}
@@ -318,4 +324,63 @@ func first(l []string) string {
 		return ""
 	}
 	return l[0]
+}
+
+
+// sockOptsExisting: the dialing options set on a socket (DialAsynch, ReconnectTime,
+// MaxReconnectTime) are passed on to the dialers the socket already has, not only inherited by
+// later ones: the dialer reports the new value and behaves accordingly (an asynchronous Dial to a
+// refusing address returns without error and keeps trying; attempts are at least the new
+// ReconnectTime apart).
+func sockOptsExisting() {
+	opt := []string{mangos.OptionDialAsynch, mangos.OptionReconnectTime, mangos.OptionMaxReconnectTime}[kit.ChooseFree(3)]
+	k := kinds.ByName([]string{"pair", "xpub", "req"}[kit.ChooseFree(3)])
+	s, err := k.New()
+	if err != nil {
+		kit.Failf("setup", "NewSocket: %v", err)
+	}
+	ep := vt.Get("c19d")
+	ep.Script(vt.DialRefused)
+	d, err := s.NewDialer("vt://c19d", nil)
+	if err != nil {
+		kit.Failf("setup", "NewDialer: %s", kit.ErrName(err))
+	}
+	var val interface{}
+	switch opt {
+	case mangos.OptionDialAsynch:
+		val = true
+	case mangos.OptionReconnectTime:
+		val = 300 * time.Millisecond
+	default:
+		val = 7 * time.Second
+	}
+	if err := s.SetOption(opt, val); err != nil {
+		kit.Failf("option-refused", "Socket.SetOption(%s,%v): %s", opt, val, kit.ErrName(err))
+	}
+	if g, err := d.GetOption(opt); err != nil || g != val {
+		kit.Failf("socket-option-not-passed-to-dialer:"+opt, "%s: the socket has a dialer; Socket.SetOption(%s,%v) was accepted, the dialer's GetOption answers %v (%s)", k.Name, opt, val, g, kit.ErrName(err))
+	}
+	kit.Count("passed-on-to-existing-dialer")
+	if opt != mangos.OptionDialAsynch {
+		_ = d.SetOption(mangos.OptionDialAsynch, true)
+	}
+	dc := kit.Start("Dial", func() (interface{}, error) { return nil, d.Dial() })
+	kit.Quiesce()
+	if !dc.Done() || dc.Err != nil {
+		kit.Failf("dial-not-asynchronous:"+opt, "%s: the dialer is asynchronous (option %s set via the socket: %v), nobody listens: Dial done=%v %s, want nil at once", k.Name, opt, opt == mangos.OptionDialAsynch, dc.Done(), kit.ErrName(dc.Err))
+	}
+	kit.Sleep(2 * time.Second)
+	kit.Quiesce()
+	if ep.NumDials() < 2 {
+		kit.Failf("dialer-gave-up", "%s: asynchronous dialer, refusing address: %d attempt(s) in 2s", k.Name, ep.NumDials())
+	}
+	if opt == mangos.OptionReconnectTime {
+		for i := 1; i < len(ep.Dials); i++ {
+			if gap := ep.Dials[i].At - ep.Dials[i-1].At; gap < 300*time.Millisecond {
+				kit.Failf("reconnect-time-not-in-effect", "%s: ReconnectTime 300ms set via the socket after the dialer existed: attempts %d and %d are %v apart", k.Name, i-1, i, gap)
+			}
+		}
+	}
+	kit.Observe("%s %s dials=%d", k.Name, opt, ep.NumDials())
+	kit.Must("Close", func() { _ = s.Close() })
 }
